@@ -40,6 +40,9 @@ extern const char *_orc_cpu_name;
 void orc_compiler_emit_invariants (OrcCompiler *compiler);
 int orc_program_has_float (OrcCompiler *compiler);
 
+/* size of the buffer the compiler emits machine code into */
+#define ORC_COMPILER_CODE_BUFFER_SIZE 65536
+
 char* _orc_getenv (const char *var);
 void orc_opcode_sys_init (void);
 
